@@ -935,7 +935,7 @@ class Interp:
             return self.getattr(inner, attr, node)
         if isinstance(base, Opaque):
             return Opaque(f"{base.what}.{attr}")
-        if isinstance(base, (SList, PyList, PyDict, SDict, str, set, dict, Iter, SSet)):
+        if isinstance(base, (SList, PyList, PyDict, SDict, str, set, dict, Iter, SSet)) or (isinstance(base, SV) and base.ty == STR):
             return BoundBuiltin(base, attr)
         if base is None:
             self.implicit("AttributeError", False, f"not-None.{attr}", node)
